@@ -1157,3 +1157,128 @@ func paramBehind(v ssa.Value) *ssa.Parameter {
 	}
 	return nil
 }
+
+// ---------------------------------------------------------------------------
+// M8 digit-window coverage of the scalar recoding
+
+func RuleM8(c *Ctx) {
+	c.Rule("M8", "digit-window coverage: partitionScalars recodes every (non-zero) scalar over all ceil(256/c) windows — the per-scalar digit loop runs chunk = 0..nbChunks-1 with the very nbChunks that sizes the selector table, reads selectors[chunk], and nbChunks is 256/c plus one when c does not divide 256 — so a carry can never be dropped by a shortened loop")
+	fn := c.P.Fn("bandersnatch", "", "partitionScalars")
+	if fn == nil {
+		c.Unresolved("M8", "bandersnatch.partitionScalars")
+		return
+	}
+	c.Saw(core.FnName(fn))
+	// selector table and its length
+	var selLen ssa.Value
+	var selCell ssa.Value
+	core.AllInstrs(fn, func(i ssa.Instruction) {
+		if ms, ok := i.(*ssa.MakeSlice); ok && strings.Contains(ms.Type().String(), "selector") {
+			selLen = ms.Len
+			for _, r := range core.Refs(ms) {
+				if st, ok := r.(*ssa.Store); ok && st.Val == ssa.Value(ms) {
+					selCell = st.Addr
+				}
+			}
+		}
+	})
+	if selLen == nil {
+		c.Und("M8", "partitionScalars:selectors", fn.Pos(), "the selector table is not recognised")
+		return
+	}
+	// nbChunks = 256/c (+1 if 256%c != 0)
+	nb := core.StripConv(selLen)
+	if u, ok := nb.(*ssa.UnOp); ok && u.Op == token.MUL {
+		if cell, ok := u.X.(*ssa.Alloc); ok {
+			okDef := false
+			var quo ssa.Value
+			for _, st := range storesInto(cell) {
+				switch v := core.StripConv(st.Val).(type) {
+				case *ssa.BinOp:
+					if v.Op == token.QUO {
+						if k, isK := core.ConstInt(v.X); isK && k == 256 && isParamC(v.Y) {
+							quo = v
+						}
+					}
+					if v.Op == token.ADD {
+						if k, isK := core.ConstInt(v.Y); isK && k == 1 {
+							okDef = true
+						}
+					}
+				}
+			}
+			remTest := false
+			for _, cd := range core.Conds(fn) {
+				if r, isR := core.StripConv(cd.X).(*ssa.BinOp); isR && r.Op == token.REM {
+					if k, isK := core.ConstInt(r.X); isK && k == 256 && isParamC(r.Y) {
+						if z, isZ := core.ConstInt(cd.Y); isZ && z == 0 {
+							remTest = true
+						}
+					}
+				}
+			}
+			c.Check(quo != nil && okDef && remTest, "M8", "partitionScalars:nbChunks=ceil(256/c)", cell.Pos(), "nbChunks is not 256/c, incremented when 256 % c != 0", "nbChunks = 256/c (+1 if 256%c != 0)")
+		}
+	}
+	// the digit loop inside the worker literal
+	found := 0
+	for _, lit := range core.Family(fn)[1:] {
+		for _, cl := range countedLoops(lit) {
+			// does the body index the selector table with the loop variable?
+			reads := false
+			for b := range cl.loop.Blocks {
+				for _, ins := range b.Instrs {
+					if ia, ok := ins.(*ssa.IndexAddr); ok && ia.Index == ssa.Value(cl.phi) {
+						if root := chanRoot(ia.X); root == selCell || core.PathOf(ia.X) == core.PathOf(selCell) {
+							reads = true
+						}
+						if u, ok := ia.X.(*ssa.UnOp); ok {
+							if fv, ok := u.X.(*ssa.FreeVar); ok && core.FreeVarBinding(fv) == selCell {
+								reads = true
+							}
+						}
+					}
+				}
+			}
+			if !reads {
+				continue
+			}
+			found++
+			z, isZ := core.ConstInt(cl.init)
+			sameCell := cellOfLoad(cl.bound) != nil && cellOfLoad(cl.bound) == cellOfLoad(nb)
+			if sameCell {
+				// the cell is final once the table has been sized
+				for _, st := range storesInto(cellOfLoad(nb)) {
+					if ms, ok := selLen.(ssa.Instruction); ok && core.CanReach(fn, ms, st) {
+						sameCell = false
+					}
+				}
+			}
+			okLoop := isZ && z == 0 && cl.step == 1 && cl.op == token.LSS && (sameCell || core.SameExpr(core.StripConv(cl.bound), nb))
+			c.Check(okLoop, "M8", "partitionScalars:digit-loop-covers-all-windows", cl.phi.Pos(), fmt.Sprintf("the per-scalar digit loop does not run chunk = 0 .. nbChunks-1 with the nbChunks that sizes the selector table (its bound is %s): a carry into a window that is not visited is lost", core.PathOf(cl.bound)), "for chunk := 0; chunk < nbChunks; chunk++ over selectors[chunk]")
+		}
+	}
+	if found != 1 {
+		c.Und("M8", "partitionScalars:digit-loop", fn.Pos(), fmt.Sprintf("expected exactly one loop over the selector table in the worker, found %d", found))
+	}
+}
+
+func isParamC(v ssa.Value) bool {
+	p := core.PathOf(core.StripConv(v))
+	return p == "p:c" || p == "*(&p:c)"
+}
+
+func cellOfLoad(v ssa.Value) *ssa.Alloc {
+	u, ok := core.StripConv(v).(*ssa.UnOp)
+	if !ok || u.Op != token.MUL {
+		return nil
+	}
+	switch a := u.X.(type) {
+	case *ssa.Alloc:
+		return a
+	case *ssa.FreeVar:
+		al, _ := core.FreeVarBinding(a).(*ssa.Alloc)
+		return al
+	}
+	return nil
+}
